@@ -2,6 +2,7 @@ import Autog.Json
 import Autog.Lemmas.MonitorMachine
 import Autog.Spec.Layering
 import Autog.Tfun
+import Autog.DriverGeom
 /-! The line-protocol driver: one case line in, one verdict line out. -/
 
 namespace Autog
@@ -345,6 +346,9 @@ def processCase (j : Json) : E Verdict := do
     pure (({} : Verdict).add "C15conc" d.isEmpty s!"calls {d.length} differ from their sequential result")
   | "history" => evalHistory j obs
   | "monitor" => evalMonitor j obs
+  | "shortest" => do pure ((← evalShortest j obs).foldl (fun v (k, ok, why) => v.add k ok why) {})
+  | "fitspline" => do pure ((← evalFitSpline j obs).foldl (fun v (k, ok, why) => v.add k ok why) {})
+  | "solve" => do pure ((← evalSolve j obs).foldl (fun v (k, ok, why) => v.add k ok why) {})
   | _ => throw s!"unknown op {op}"
 
 /-- several verdicts under one key (one per component): a failure dominates, then ok, then skip -/
